@@ -100,6 +100,41 @@ func loaderC14Jobs(tier string) []JobDef {
 	return []JobDef{loaderJob("loader", "HarnessC14Loader", p("steps", steps, "versions", 6), fmt.Sprintf("every history of %d CompileAndRun calls of one program name over {v1, v1 + comment, v2, syntax error, refused registration (kind conflict with another program), keys changed, declaration moved}", steps), gen)}
 }
 
+// ---- C20: a line arriving while a reload is in progress ----
+
+func c20Substs() []Subst {
+	mu := `((?:\w+\.)+(?:handleMu|programErrorMu|insertMu|searchMu)\.)(R?Unlock)\(\)`
+	var out []Subst
+	for _, f := range []struct{ file, hook string }{{"internal/runtime/runtime.go", "metrics.VerifYield()"}, {"internal/metrics/store.go", "VerifYield()"}} {
+		out = append(out,
+			Subst{File: f.file, Re: true, Old: `(?m)^(\s*)defer ` + mu + `[ \t]*$`, New: "${1}defer func() { ${2}${3}(); " + f.hook + " }()"},
+			Subst{File: f.file, Re: true, Old: `(?m)^(\s*)` + mu + `[ \t]*$`, New: "${1}${2}${3}(); " + f.hook})
+	}
+	out = append(out, Subst{File: "internal/metrics/store.go", Re: true, Old: `\z`, New: "\n// VerifYield is called after every release of a store lock (replay hook).\nvar VerifYield = func() {}\n"})
+	return out
+}
+
+func init() {
+	register(&CheckDef{ID: "C20", Level: "model_checking", Only: []string{"C20."},
+		Assumptions: append([]string{
+			"the compiler's answer for each of the harness's program texts is pre-computed with the working tree's compiler (compile bridge) and replayed by a stub of Compiler.Compile; natively the real compiler runs",
+			"the dispatcher goroutine of runtime.New and the VM goroutines run under the engine's deterministic scheduler: after each line they run until none can go on (natively: a 20 ms pause); the reloading goroutine is interleaved with them only at its own lock-release points, where the solver decides whether the next line arrives",
+			"glog is a no-op, expvar a counter table, the clock is frozen",
+		}, baseAssumptions...),
+		Jobs: func(tier string) []JobDef {
+			gen, err := loaderGen()
+			if err != nil {
+				return []JobDef{{Name: "bridge-failed: " + err.Error(), Pkg: rtPkg, Dir: "internal/runtime", Entry: "missing"}}
+			}
+			j := loaderJob("reload-with-line", "HarnessC20Reload", p(), "one program (an unconditional counter, scalar or with one constant label) loaded in the real runtime; 0..1 lines; one reload to the same declaration plus a comment or to a program with a different metric, with the next line arriving at any point at which the reloading goroutine releases handleMu/programErrorMu/insertMu/searchMu, or after the reload; one more line; then the input closes", gen)
+			j.Harness = append(j.Harness, "runtime/c20.go")
+			j.NativeOnly = []string{"runtime/c20_native.go"}
+			j.Substs = c20Substs()
+			return []JobDef{j}
+		},
+		Outside: []string{"schedules of the dispatcher and VM goroutines other than run-to-quiescence after each line (a VM that is still busy with a line when the next one arrives, two VMs of one program running at the same moment)", "more than one reload; several programs; reloads through SIGHUP or the poll loop", "programs with patterns (every line is the same to these programs)"}})
+}
+
 func loaderC26Jobs(tier string) []JobDef {
 	return checks["C26"].Jobs(tier)
 }
